@@ -111,6 +111,11 @@ fn show(r: Result<Value, humphrey_json::error::TracebackError>) -> String {
 
 pub fn dispatch(name: &str, args: &[&str]) -> Option<String> {
     match name {
+        // jeq h<text a> h<text b>: Value's PartialEq on the two parsed documents
+        "jeq" => Some(match (Value::parse(unhex_str(args[0])), Value::parse(unhex_str(args[1]))) {
+            (Ok(a), Ok(b)) => format!("eq={} ne={}", (a == b) as u8, (a != b) as u8),
+            _ => "err".to_string(),
+        }),
         // jparse h<text>
         "jparse" => Some(show(Value::parse(unhex_str(args[0])))),
         // jparsed <max_depth> h<text>
